@@ -162,6 +162,8 @@ func observe(f *gcs.Filter, key [gcs.KeySize]byte, qs [][]byte, built bool) stri
 
 func execGcs(f []string) string {
 	switch f[0] {
+	case "bld":
+		return execBld(f[1], f[2])
 	case "fr":
 		v, nm := u64(f[1]), u64(f[2])
 		return strconv.FormatUint(gcs.VerifFastReduction(v, nm>>32, uint64(uint32(nm))), 10)
@@ -491,7 +493,9 @@ func golomb(p int, deltas []uint64) []byte {
 	return w.b
 }
 
-func init() { moreGcs = genGcsMore }
+func init() {
+	moreGcs = func(g *core.Gen) { genGcsMore(g); genBld(g) }
+}
 
 func genGcsMore(g *core.Gen) {
 	r := g.R
@@ -762,5 +766,338 @@ func genGcsMore(g *core.Gen) {
 		}
 		g.Case("basic", true, fmt.Sprintf("C20 basic %s %s %s %s", hex.EncodeToString(hdr), txsTok,
 			itemsTok(prevs), hex.EncodeToString(prevHdr)))
+	}
+}
+
+// ---------------------------------------------------------------- GCSBuilder API ("bld" op)
+
+func hash32(s string) *chainhash.Hash {
+	b := unhex(s)
+	if len(b) != 32 {
+		panic("hash size")
+	}
+	var h chainhash.Hash
+	copy(h[:], b)
+	return &h
+}
+
+func bldErr(err error) string {
+	switch {
+	case err == gcs.ErrPTooBig:
+		return "err:ptoobig"
+	case err == gcs.ErrNTooBig:
+		return "err:ntoobig"
+	case strings.Contains(err.Error(), "p value"):
+		return "err:pnotset"
+	case strings.Contains(err.Error(), "m value"):
+		return "err:mnotset"
+	}
+	return "err:other"
+}
+
+func u8(s string) uint8 {
+	v, err := strconv.ParseUint(s, 10, 8)
+	if err != nil {
+		panic(err)
+	}
+	return uint8(v)
+}
+
+func u32(s string) uint32 {
+	v, err := strconv.ParseUint(s, 10, 32)
+	if err != nil {
+		panic(err)
+	}
+	return uint32(v)
+}
+
+func execBld(ctor, ops string) string {
+	c := strings.Split(ctor, ":")
+	var b *builder.GCSBuilder
+	random := false
+	switch c[0] {
+	case "zero":
+		b = &builder.GCSBuilder{}
+	case "kpnm":
+		b = builder.WithKeyPNM(key16(c[1]), u8(c[2]), u32(c[3]), u64(c[4]))
+	case "kpm":
+		b = builder.WithKeyPM(key16(c[1]), u8(c[2]), u64(c[3]))
+	case "k":
+		b = builder.WithKey(key16(c[1]))
+	case "hpnm":
+		b = builder.WithKeyHashPNM(hash32(c[1]), u8(c[2]), u32(c[3]), u64(c[4]))
+	case "hpm":
+		b = builder.WithKeyHashPM(hash32(c[1]), u8(c[2]), u64(c[3]))
+	case "h":
+		b = builder.WithKeyHash(hash32(c[1]))
+	case "rpnm":
+		b, random = builder.WithRandomKeyPNM(u8(c[1]), u32(c[2]), u64(c[3])), true
+	case "rpm":
+		b, random = builder.WithRandomKeyPM(u8(c[1]), u64(c[2])), true
+	case "r":
+		b, random = builder.WithRandomKey(), true
+	default:
+		return "bad-op"
+	}
+	var obs []string
+	var entries [][]byte // everything added so far (for the random-key self-check)
+	if ops != "." {
+		for _, op := range strings.Split(ops, ";") {
+			p := strings.Split(op, ":")
+			switch p[0] {
+			case "sk":
+				b.SetKey(key16(p[1]))
+				if _, err := b.Key(); err == nil {
+					random = false
+				}
+			case "skh":
+				b.SetKeyFromHash(hash32(p[1]))
+				if _, err := b.Key(); err == nil {
+					random = false
+				}
+			case "sp":
+				b.SetP(u8(p[1]))
+			case "sm":
+				b.SetM(u64(p[1]))
+			case "pre":
+				b.Preallocate(u32(p[1]))
+			case "e":
+				d := unhex(p[1])
+				b.AddEntry(d)
+				entries = append(entries, d)
+			case "es":
+				ds := parseItems(p[1])
+				b.AddEntries(ds)
+				entries = append(entries, ds...)
+			case "w":
+				ds := parseItems(p[1])
+				b.AddWitness(wire.TxWitness(ds))
+				entries = append(entries, ds...)
+			case "ah":
+				h := hash32(p[1])
+				b.AddHash(h)
+				entries = append(entries, h.CloneBytes())
+			case "key":
+				k, err := b.Key()
+				switch {
+				case err != nil:
+					obs = append(obs, bldErr(err))
+				case random:
+					obs = append(obs, "key=R")
+				default:
+					obs = append(obs, "key="+hex.EncodeToString(k[:]))
+				}
+			case "build":
+				f, err := b.Build()
+				if err != nil {
+					obs = append(obs, bldErr(err))
+					continue
+				}
+				nb, _ := f.NBytes()
+				if !random {
+					obs = append(obs, fmt.Sprintf("build=%d/%s", f.N(), hex.EncodeToString(nb)))
+					continue
+				}
+				// unknown key: under the key Key() reports the filter must match everything that was
+				// added, and N must be the number of distinct entries
+				k, _ := b.Key()
+				ok := true
+				set := map[string]struct{}{}
+				var uniq [][]byte
+				for _, e := range entries {
+					if _, dup := set[string(e)]; !dup {
+						set[string(e)] = struct{}{}
+						uniq = append(uniq, e)
+					}
+					m, err := f.Match(k, e)
+					ok = ok && m && err == nil
+				}
+				ok = ok && int(f.N()) == len(uniq)
+				obs = append(obs, fmt.Sprintf("build=%d/R%s", f.N(), bit(ok)))
+			default:
+				return "bad-op"
+			}
+		}
+	}
+	if len(obs) == 0 {
+		return "-"
+	}
+	return strings.Join(obs, " ")
+}
+
+func genBld(g *core.Gen) {
+	r := g.R
+	pTok := func() int64 { return r.Pick(0, 1, 19, 19, 20, 31, 32, 33, 255, int64(1+r.Intn(32))) }
+	mTok := func() uint64 {
+		switch r.Intn(6) {
+		case 0:
+			return uint64(r.Pick(0, 1, 1<<32-2, 1<<32-1, 1<<32, 1<<32+1, 1<<40))
+		case 1:
+			return 784931
+		}
+		return 1 + uint64(r.Intn(1<<20))
+	}
+	for i := 0; i < g.N(400, 15000); i++ {
+		p, m := pTok(), mTok()
+		// keep the unary part short
+		if p <= 32 && m <= 1<<32-1 && m>>uint(p) > 64 && !r.Chance(1, 20) {
+			m = uint64(1)<<uint(p) + uint64(r.Intn(1000))
+			if m > 1<<32-1 {
+				m = 1<<32 - 1
+			}
+		}
+		if p <= 32 && m <= 1<<32-1 && m>>uint(p) > 4096 {
+			m = 784931
+			p = 19
+		}
+		key := hex.EncodeToString(r.Bytes(16))
+		hash := hex.EncodeToString(r.Bytes(32))
+		n := r.Intn(40)
+		var ctor string
+		switch r.Intn(11) {
+		case 0:
+			ctor = "zero"
+		case 1:
+			ctor = fmt.Sprintf("kpnm:%s:%d:%d:%d", key, p, n, m)
+		case 2:
+			ctor = fmt.Sprintf("kpm:%s:%d:%d", key, p, m)
+		case 3:
+			ctor = "k:" + key
+		case 4:
+			ctor = fmt.Sprintf("hpnm:%s:%d:%d:%d", hash, p, n, m)
+		case 5:
+			ctor = fmt.Sprintf("hpm:%s:%d:%d", hash, p, m)
+		case 6:
+			ctor = "h:" + hash
+		case 7:
+			ctor = fmt.Sprintf("rpnm:%d:%d:%d", p, n, m)
+		case 8:
+			ctor = fmt.Sprintf("rpm:%d:%d", p, m)
+		case 9:
+			ctor = "r"
+		default:
+			ctor = fmt.Sprintf("kpnm:%s:%d:%d:%d", key, 19, n, 784931)
+		}
+		var pool [][]byte
+		item := func() []byte {
+			if len(pool) > 0 && r.Chance(1, 3) {
+				return pool[r.Intn(len(pool))]
+			}
+			d := r.Bytes(r.Intn(20))
+			pool = append(pool, d)
+			return d
+		}
+		var ops []string
+		if ctor == "zero" && r.Chance(2, 3) {
+			ops = append(ops, fmt.Sprintf("sp:%d", 19), fmt.Sprintf("sm:%d", 784931))
+			if r.Chance(2, 3) {
+				ops = append(ops, "pre:0")
+			}
+		}
+		for j := 0; j < 1+r.Intn(10); j++ {
+			switch r.Intn(14) {
+			case 0:
+				ops = append(ops, "sk:"+hex.EncodeToString(r.Bytes(16)))
+			case 1:
+				ops = append(ops, "skh:"+hex.EncodeToString(r.Bytes(32)))
+			case 2:
+				ops = append(ops, fmt.Sprintf("sp:%d", r.Pick(19, 20, 32, 33, 0, 1)))
+			case 3:
+				ops = append(ops, fmt.Sprintf("sm:%d", uint64(r.Pick(784931, 1<<20, 1<<32-1, 1<<32, 0))))
+			case 4:
+				ops = append(ops, fmt.Sprintf("pre:%d", r.Intn(100)))
+			case 5, 6:
+				ops = append(ops, "e:"+hexTok(item()))
+			case 7:
+				k := 1 + r.Intn(4)
+				ds := make([][]byte, k)
+				for x := range ds {
+					ds[x] = item()
+				}
+				ops = append(ops, "es:"+itemsTok(ds))
+			case 8:
+				k := 1 + r.Intn(3)
+				ds := make([][]byte, k)
+				for x := range ds {
+					ds[x] = item()
+				}
+				ops = append(ops, "w:"+itemsTok(ds))
+			case 9:
+				ops = append(ops, "ah:"+hex.EncodeToString(r.Bytes(32)))
+			case 10:
+				ops = append(ops, "key")
+			default:
+				ops = append(ops, "build")
+			}
+		}
+		ops = append(ops, "key", "build")
+		// simulate (p, m, err) and put a SetP in front of every Build whose quotient M/2^P would be large
+		// (a unary run per element): both sides would only burn time there
+		curP, curM, bad := uint64(0), uint64(0), false
+		set := func(c []string) {
+			switch c[0] {
+			case "kpnm", "hpnm":
+				pp, _ := strconv.ParseUint(c[2], 10, 64)
+				mm, _ := strconv.ParseUint(c[4], 10, 64)
+				curP, curM = pp, mm
+			case "kpm", "hpm":
+				pp, _ := strconv.ParseUint(c[2], 10, 64)
+				mm, _ := strconv.ParseUint(c[3], 10, 64)
+				curP, curM = pp, mm
+			case "rpnm":
+				pp, _ := strconv.ParseUint(c[1], 10, 64)
+				mm, _ := strconv.ParseUint(c[3], 10, 64)
+				curP, curM = pp, mm
+			case "rpm":
+				pp, _ := strconv.ParseUint(c[1], 10, 64)
+				mm, _ := strconv.ParseUint(c[2], 10, 64)
+				curP, curM = pp, mm
+			case "k", "h", "r":
+				curP, curM = 19, 784931
+			}
+		}
+		set(strings.Split(ctor, ":"))
+		if curP > 32 {
+			bad, curP = true, 0
+			curM = 0
+		} else if curM > 1<<32-1 {
+			bad, curM = true, 0
+		}
+		var fixed []string
+		for _, op := range ops {
+			c := strings.Split(op, ":")
+			switch c[0] {
+			case "sp":
+				v, _ := strconv.ParseUint(c[1], 10, 64)
+				if !bad {
+					if v > 32 {
+						bad = true
+					} else {
+						curP = v
+					}
+				}
+			case "sm":
+				v, _ := strconv.ParseUint(c[1], 10, 64)
+				if !bad {
+					if v > 1<<32-1 {
+						bad = true
+					} else {
+						curM = v
+					}
+				}
+			case "build":
+				if !bad && curP > 0 && curM>>curP > 256 {
+					np := uint64(bits.Len64(curM)) - 6
+					if np > 32 {
+						np = 32
+					}
+					fixed = append(fixed, fmt.Sprintf("sp:%d", np))
+					curP = np
+				}
+			}
+			fixed = append(fixed, op)
+		}
+		line := fmt.Sprintf("C20 bld %s %s", ctor, strings.Join(fixed, ";"))
+		g.Case("bld", true, line)
 	}
 }
